@@ -42,7 +42,7 @@ def plan(tier, seed):
               "ComputerPlayer::getCommand (depth 1..3) as TUIGame::play does; a draw claim it makes must be valid for the model. Non-trivial "
               "sequence = distinct sequence reaching a game-over state, making a claim with a move, an invalid claim, a redo of a double push "
               "with pseudo-only e.p., a command after game over, or a ComputerPlayer claim."),
-        floors={"uci: third occurrence": 1200 * sc, "uci: third occurrence, odd history length": 300 * sc, "uci: third occurrence, even history length": 300 * sc,
+        floors={"uci: third occurrence": 900 * sc, "uci: third occurrence, odd history length": 300 * sc, "uci: third occurrence, even history length": 300 * sc,
                 "uci: third occurrence, first one right after a double push with pseudo-only e.p.": 60 * sc,
                 "uci: third occurrence, first one right after a double push without capturer": 20 * sc,
                 "uci: third occurrence, same placement with a legal e.p. capture earlier (not counted)": 20 * sc,
@@ -50,11 +50,11 @@ def plan(tier, seed):
                 "uci: third occurrence, irreversible move earlier in the history": 300 * sc,
                 "uci: hmc 99 -> 100": 250 * sc, "uci: hmc reached by play (>= 60 history plies)": 150 * sc,
                 "uci: mate on the move that reaches hmc >= 100": 120 * sc, "uci: MultiPV 2 with two root moves": 150 * sc,
-                "game: DRAW_REP reached": 1500 * sc, "game: DRAW_50 reached": 2000 * sc, "game: DRAW_AGREE reached": 2000 * sc,
-                "game: DRAW_NO_MATE reached": 1500 * sc, "game: mate reached": 100 * sc, "game: stalemate reached": 100 * sc,
-                "game: resignation": 2000 * sc, "game: redo of a double push with pseudo-only e.p.": 2000 * sc,
+                "game: DRAW_REP reached": 800 * sc, "game: DRAW_50 reached": 2000 * sc, "game: DRAW_AGREE reached": 2000 * sc,
+                "game: DRAW_NO_MATE reached": 900 * sc, "game: mate reached": 100 * sc, "game: stalemate reached": 100 * sc,
+                "game: resignation": 2000 * sc, "game: redo of a double push with pseudo-only e.p.": 800 * sc,
                 "game: invalid claim (becomes an offer)": 5000 * sc, "game: command after the game is over": 5000 * sc,
-                "cp: ComputerPlayer claimed a draw": 40 * sc, "cp: ComputerPlayer moved": 1500 * sc},
+                "cp: ComputerPlayer claimed a draw": 80 * sc, "cp: ComputerPlayer moved": 1500 * sc},
         assumptions=["FIDE 9.2 identity = same placement, side to move, castling rights and *legal* e.p. possibilities (ref::repKey); 9.3 = half-move clock >= 100",
                      "UCI part: only exact (non-bound) score lines whose pv starts with m are judged; nothing is demanded when refchess sees no third occurrence, "
                      "clock < 100 and no mate; every case starts with ucinewgame on a persistent engine process and a failure is reported only if it "
